@@ -239,5 +239,5 @@ def run(res):
                 "non-trivial = distinct (format, word count class, 0xFF run) cell compared")
     res.samples = ["format 2, 5 words + 9 x 0xFF", "format 2, 5 words + 10 x 0xFF", "format 2, 7 words + 16 x 0xFF -> one Payload error", "format 0, 33 words",
                    "TDT(packet_done=0) | over-padded payload | IHW TDH(cont=0): no [E41]"]
-    res.min_nontrivial = 300 if quick else 5000
+    res.min_nontrivial = 300 if quick else 900
     res.assumptions = ["the payload layout agrees with the header's data format; a format 2 payload whose second word starts with six 0x00 bytes is finding D8 (sniff-vs-header-format)"]
